@@ -13,7 +13,8 @@ What is transcribed
 * Repairs that ARE assumed (patch files in `/verif/fixes`): D11b `Data.__delattr__` pops from the
   odict (unpatched: `del share[k]` leaves `k` in the key list and `items()` raises); D11c the name
   test uses `fullmatch` (unpatched: a trailing newline is accepted); D11d `Share.setdefault` goes
-  through `__setitem__` (unpatched: any key is accepted).
+  through `__setitem__` (unpatched: any key is accepted); D11f `Share.insert` applies the name
+  test (unpatched: `share.insert(0, '_bad', 5)` puts any key into the key list).
 * `share.stamp = share.store.stamp` under `except AttributeError: stamp = None`; a store's stamp
   may itself be `None`.  Stamps are exact (`Int`, in units of 1/8 s in the harness).
 * Field names are restricted to ASCII in the harness; `isWord` is `\w` on ASCII.
@@ -137,6 +138,13 @@ def delattr (d : Data) (k : Str) : Data × Option Err :=
     | some .dictPtr => (d, some .unmodelled)
     | _ => (d, some .attributeError)
 
+/-- `list.insert(i, x)` with Python's treatment of negative and too large indices -/
+def pyInsert (l : List Str) (i : Int) (x : Str) : List Str :=
+  let n : Nat :=
+    if i < 0 then (if i + l.length < 0 then 0 else (i + l.length).toNat)
+    else (if i.toNat > l.length then l.length else i.toNat)
+  l.take n ++ x :: l.drop n
+
 /-- `odict.items()`: `dict.__getitem__` for every key of the key list -/
 def items (d : Data) : Except Err (List (Str × Val)) :=
   d.keys.mapM (fun k => match lookup d.raw k with
@@ -197,6 +205,7 @@ inductive Op where
   | setItem (k : Str) (v : Val) | getItem (k : Str) | delItem (k : Str) | contains (k : Str)
   | get (k : Str) | keys | items | values | len
   | pop (k : Str) | popitem | setdefault (k : Str) (v : Val) | clear
+  | insert (idx : Int) (k : Str) (v : Val)
   | push (v : Val) | pull | gulp (v : Val) | spew
   | setClock (i : Nat) (t : Option Int)      -- store i: `.changeStamp(t)` / `.stamp = None`
   | attach (s : Option Nat)                  -- `share.changeStore(store i)` / `changeStore(None)`
@@ -291,6 +300,12 @@ def step (w : World) : Op → World × Out
          | none => ({ w with data := d }, .err .keyError))
       | (d, some e) => ({ w with data := d }, .err (toKey e))
   | .clear => ({ w with data := ⟨[], []⟩ }, .unit)
+  | .insert idx k v =>
+    -- D11f repair: the name test first; then `odict.insert`: `if key in self: raise KeyError`,
+    -- `dict.__setitem__`, `self._keys.insert(index, key)`
+    if !identPub k then (w, .err .keyError)
+    else if (lookup w.data.raw k).isSome then (w, .err .keyError)
+    else ({ w with data := ⟨rawSet w.data.raw k v, pyInsert w.data.keys idx k⟩ }, .unit)
   | .push v => ({ w with deck := w.deck ++ [v] }, .unit)            -- `deque.append`
   | .pull =>
     match w.deck with
@@ -316,7 +331,8 @@ def pairsUseClassAttr (ps : List (Str × Val)) : Bool := ps.any (fun p => (class
 /-- D11: the operation names a class attribute of `Data` as a field -/
 def usesClassAttr : Op → Bool
   | .update ps | .change ps | .create ps => pairsUseClassAttr ps
-  | .setItem k _ | .getItem k | .delItem k | .contains k | .get k | .pop k | .setdefault k _ =>
+  | .setItem k _ | .getItem k | .delItem k | .contains k | .get k | .pop k | .setdefault k _
+  | .insert _ k _ =>
     (classAttr k).isSome
   | _ => false
 
